@@ -562,8 +562,6 @@ _transitions = {
         (H2StreamStateMachine.response_sent, StreamState.HALF_CLOSED_REMOTE),
     (StreamState.RESERVED_LOCAL, StreamInputs.RECV_DATA):
         (H2StreamStateMachine.reset_stream_on_error, StreamState.CLOSED),
-    (StreamState.RESERVED_LOCAL, StreamInputs.SEND_WINDOW_UPDATE):
-        (None, StreamState.RESERVED_LOCAL),
     (StreamState.RESERVED_LOCAL, StreamInputs.RECV_WINDOW_UPDATE):
         (H2StreamStateMachine.window_updated, StreamState.RESERVED_LOCAL),
     (StreamState.RESERVED_LOCAL, StreamInputs.SEND_RST_STREAM):
